@@ -63,6 +63,10 @@ def enum_subsets(tier, shard, nshards):
 def check_name_id(spec, ctx):
     keys = [apply_case(k, spec["case"] if (j % 2 == 0 or spec["case"] in (0, 1)) else 0) for j, k in enumerate(spec["keys"])]
     values = {k: ["val_%s" % k.lower(), "second"] for k in keys}
+    if spec.get("empty_value_at") is not None and keys and not spec.get("note"):
+        # (without a /note: whether an empty identifier counts as "no identifier" for the note fallback is not documented)
+        values[keys[spec["empty_value_at"] % len(keys)]] = [""]
+        ctx.label("a_key_with_one_empty_value")
     if spec.get("note"):
         values["note"] = [spec["note"]]
     recognised = [k for k in keys if k.lower() in NAME_RANK or k.lower() in ID_RANK]
@@ -111,6 +115,9 @@ def strat_name_id(draw, tier="quick"):
     sp = {"keys": keys, "case": draw(st.integers(0, 3)), "orders": orders}
     if note is not None:
         sp["note"] = note
+    if draw(st.integers(0, 3)) == 0:
+        # one key carries a single EMPTY value (/standard_name=""): it still is the value of that key
+        sp["empty_value_at"] = draw(st.integers(0, len(keys) - 1))
     return sp
 
 
